@@ -103,6 +103,9 @@ func newVerifier(tier string) (*Verifier, error) {
 						V.callGraph[k][ck] = true
 					}
 				}
+				if _, isDbg := in.(*ssa.DebugRef); isDbg {
+					continue // a debug reference to the callee's name is not a use as a value
+				}
 				var ops []*ssa.Value
 				for _, op := range in.Operands(ops) {
 					if op == nil || *op == nil {
